@@ -248,10 +248,24 @@ func init() {
 				// a whitelist that names one of the library's own identity keys next to application keys
 				cfg.Whitelist = [][]string{{"app_theme", "uid"}, {"halfauth", "app_lang"}, {"last_action", "app_cart", "uid"}}[(unit/6)%3]
 			}
+			shortKeys := unit%6 == 2 && !cfg.UseExpire
+			if shortKeys {
+				// an application whose own whitelisted session keys have short names
+				cfg.Whitelist = []string{"id", "t", "auth", "app_theme"}
+			}
 			s, err := sim.New(cfg, r, sim.SeedOpt{Accounts: 3, Browsers: 3, TwoFAProb: 0.4, Unconfirmed: 0.05})
 			if err != nil {
 				c.Stats.Inconclusive = append(c.Stats.Inconclusive, "world: "+err.Error())
 				return
+			}
+			if shortKeys {
+				for b := range s.Br {
+					for _, kv := range [][2]string{{"id", "tenant-7"}, {"t", "d"}, {"auth", "sso"}} {
+						st := s.Exec(act("appset", b, -9, "", "k", kv[0], "v", kv[1]))
+						s.Learn(st)
+					}
+				}
+				c.Stats.Count("units-with-short-whitelisted-keys")
 			}
 			sim.RunHistory(s, prof, []sim.Monitor{&c10mon{stats: c.Stats, after: map[int]bool{}}}, c.Stats, unit)
 		},
